@@ -1,7 +1,7 @@
 # C12 - buffered commands are served fairly: one per user per cycle, nobody starves.
 # Engine W-loop: real backend loop / process_user_command / get_user_command with simulated clients.
 import re, hashlib
-from ..core import Plan, Violation, generic_crash_violations, enc, dec
+from ..core import Plan, Violation, generic_crash_violations, spin_violations, enc, dec
 from ..world import *
 
 PROP = 'C12'
@@ -96,6 +96,7 @@ def gen(rng, tier, i):
 def check(plan, res):
     v = generic_crash_violations(PROP, res)
     if v: return v
+    v += spin_violations(PROP, res)
     evs = res.events
     # bytes sent per conn in plan order
     sent = {}
